@@ -180,6 +180,11 @@ def seq_enumerated():
                                    ('param', '', 'x % 4 + 9'), ('global-13', 'glen = 13;', 'glen')):
             T('vla-%s-len-%s' % (el, lname), "%s %s a[%s]; int n = a.length; int[] b = [x, y, 7]; a[n - 1] = %s; a[0] = %s; b[0] += 1; sleep(n); %s sleep(b[0]); sleep(b[2]);" % (setup, el, lexp, val, val, obs),
               extra='int glen = 3;\n')
+    # an element of an array of strings (or a string held elsewhere) indexed by an expression that itself indexes or calls
+    T('nested-string-index', "string[] names = [\"lab\", \"bra\"]; write(names[x % 2][key[y % 3] - '0']); write(names[y % 2][idx(x)]); write(gs[key[x % 3] - '0']); "
+      "write(pick(names, x)[gba[0] - 10 + y % 2]); string s = names[1]; write(s[key[y % 3] - '0']); write(names[idx(y) % 2][names[0].length - 1 - idx(x)]); write(cnames[x % 2][key[idx(y)] - '0']);",
+      extra="const byte[] key = ['0', '1', '2'];\nconst string[] cnames = [\"xyz\", \"uvw\"];\nint idx(int v) { return v % 3; }\nstring pick(const string[] a, int v) { return a[v % 2]; }\n")
+    T('nested-array-index', "int[] t = [2, 0, 1]; sleep(ga[t[x % 3]]); sleep(gc[t[t[y % 3]]]); ga[t[x % 3]] = gc[t[y % 3]] + t[h(x, x)]; sleep(ga[0] + ga[1] * 10 + ga[2] * 100); write(gba[t[bump(0) % 3]]); gfa[t[y % 3] + 7] = gfa[t[x % 3]]; sleep(gfa[8] is int);")
     return out
 
 
@@ -809,6 +814,22 @@ def cf_enumerated():
         src = ("int @f(int a, int b) { b = b %% 3; %s }\nempty sentinel() { write('#'); write('#'); all_is_broken(); }\n"
                "empty @is_you(int a, int b) { sleep(@f(a, b)); write('.'); }\n" % ' '.join(b))
         out.append(C('cf/you-enum-%d' % i, src))
+    # nested loops: the exits of the inner loop belong to the inner loop, also when the outer loop has none of its own and is the last statement
+    nested = ["while (true) { while (true) { if (b > 1) { return 20; } b += 1; if (b == 1) { break; } } write('o'); }",
+              "while (true) { for (int i = 0; i < 3; i += 1) { if (i == a) { break; } if (i == b) { continue; } write('i'); } b += 1; if (b > 2) { return 21; } }",
+              "for (;;) { while (b < 2) { b += 1; if (a > 0) { break; } } if (b >= 2) { return 22; } b += 1; }",
+              "while (true) { while (true) { while (true) { if (a > 0) { break; } a += 1; } b += 1; if (b > 1) { break; } } if (b > 2) { return 23; } }",
+              "while (b < 2) { while (true) { b += 1; if (b > 0) { break; } } write('x'); } return 24;",
+              "for (int i = 0; i < 2; i += 1) { for (int j = 0; j < 2; j += 1) { if (j == b) { continue; } if (i == a) { break; } write('a' + i * 2 + j); } write('|'); } return 26;",
+              "while (true) { for (int i = 0; i < 2; i += 1) { if (i == a) { continue; } write('c'); } while (true) { b += 1; break; } if (b > 1) { return 27; } }"]
+    for i, b in enumerate(nested):
+        out.append(C('cf/nested-%d' % i, "int f(int a, int b) { b = b %% 3; %s }\nempty sentinel() { write('#'); write('#'); all_is_broken(); }\n"
+                     "empty @is_you(int a, int b) { sleep(f(a, b)); write('.'); }\n" % b))
+        if 'return 2' in b and not b.rstrip().endswith(';'):
+            import re as _re
+            eb = _re.sub(r'return \d+;', 'return;', b)
+            out.append(C('cf/nested-empty-%d' % i, "empty g(int a, int b) { b = b %% 3; %s }\nempty sentinel() { write('#'); write('#'); all_is_broken(); }\n"
+                         "empty @is_you(int a, int b) { g(a, b); write('.'); g(b, a); write('.'); }\n" % eb))
     return out
 
 
@@ -1001,7 +1022,7 @@ def alloc_templates():
     T('args-array', 'xs[0] = 7; int[] a = [xs[0], xs[1]]; sleep(a[0] + a[1]);', sig='int[] xs', xs=2)
     # state addresses on both sides of the sign bit of a 16-bit word: at the largest accepted stack the entry frame ends at 32770, and the
     # 30000-byte global lies wholly above 32767 (address arithmetic and every guard must be unsigned)
-    T('high-addresses', "big[29999] = x is byte; big[y % 4 + 100] = 'm'; int[] a = [x, y, 3]; byte[] b = ['p', y is byte]; sleep(r(x % 3)); sleep(a[1]); write(b[1]); write(big[29999]); write(big[100 + y % 4]); sleep(a[0]); write(tab[x % 2]);",
-      extra='byte big[30000];\nconst byte[] tab = [7, 9];\nint r(int n) { int[] t = [n, 2]; if (n <= 0) { return t[1]; } return r(n - 1) + t[0]; }\n')
+    T('high-addresses', "big[29999] = x is byte; big[y % 4 + 100] = 'm'; int[] a = [x, y, 3]; byte[] b = ['p', y is byte]; sleep(r(x % 3)); sleep(a[1]); write(b[1]); write(big[29999]); write(big[100 + y % 4]); sleep(a[0]); write(tab[x % 2]); write(gmsg); gmsg[3] = y is byte; write(gmsg); write(smsg);",
+      extra='byte[] gmsg = [104, 101, 108, 108, 111, 119, 111, 114, 108, 100];\nstring smsg = "state";\nbyte big[30000];\nconst byte[] tab = [7, 9];\nint r(int n) { int[] t = [n, 2]; if (n <= 0) { return t[1]; } return r(n - 1) + t[0]; }\n')
     T('spec', 'int[] a = [1, 2]; sleep(h(x) ?? y); sleep(a[1]);', extra='int h(int v) { int[] t = [v, v, v]; return t[2]; }\n')
     return out
